@@ -22,6 +22,8 @@ import (
 	"sort"
 	"strings"
 	"sync"
+	"sync/atomic"
+	"time"
 
 	"ariga.io/atlas/sql/migrate"
 
@@ -47,14 +49,9 @@ func init() {
 	rt.Register("c20race", rt.Monitor{Run: runRace})
 }
 
-// canon is the compared form of an output: Atlas error TEXTS are not part of the property (only that
-// the same input fails at the same stage every time).
-func canon(kind string, b []byte) []byte {
-	if strings.HasPrefix(kind, "error.") {
-		return []byte("error")
-	}
-	return b
-}
+// canon is the compared form of an output (identity: error texts are outputs of the operation too,
+// reported under their own kind "error.<stage>").
+func canon(kind string, b []byte) []byte { return b }
 
 func nEdit(c *rt.Ctx) int { return c.Pick(8, 24) }
 
@@ -284,47 +281,112 @@ func inputClass(name string) string {
 	return s
 }
 
+// compare returns the mismatches of one further run against the first one.
+func compare(first, got map[string][]byte, rep int) (mm []mismatch) {
+	ks := map[string]bool{}
+	for k := range first {
+		ks[k] = true
+	}
+	for k := range got {
+		ks[k] = true
+	}
+	for k := range ks {
+		a, aok := first[k]
+		b, bok := got[k]
+		if aok != bok || string(canon(k, a)) != string(canon(k, b)) {
+			mm = append(mm, mismatch{k, rep, a, b})
+		}
+	}
+	return
+}
+
+// runRep: run 0 of every input in parallel, then every (input, run) pair in parallel (so that the
+// heavy inputs do not form a serial tail), then the verdicts per input.
 func runRep(c *rt.Ctx, ins []*Input, dirs []*DirInput, reps int) {
-	c.Par(len(ins)+len(dirs), func(i int, w *rt.W) {
+	n := len(ins) + len(dirs)
+	caseOf := func(i int) Case {
+		if i < len(ins) {
+			return Case{Leg: "rep", Seed: c.Seed, NEdit: nEdit(c), Input: ins[i].Name, Reps: reps}
+		}
+		return Case{Leg: "dir", Seed: c.Seed, Input: dirs[i-len(ins)].Name, Reps: reps}
+	}
+	compute := func(i int, w *rt.W) map[string][]byte {
+		if i < len(ins) {
+			return Outputs(ins[i])
+		}
+		return DirOutputs(dirs[i-len(ins)], nil, filepath.Join(c.Scratch, fmt.Sprintf("dirs-w%d", w.ID)))
+	}
+	first := make([]map[string][]byte, n)
+	c.Par(n, func(i int, w *rt.W) {
+		w.Begin(caseOf(i))
+		first[i] = compute(i, w)
+	})
+	var mu sync.Mutex
+	mms := make([][]mismatch, n)
+	c.Par(n*(reps-1), func(j int, w *rt.W) {
+		i, rep := j%n, 1+j/n
+		w.Begin(caseOf(i))
+		if mm := compare(first[i], compute(i, w), rep); len(mm) > 0 {
+			mu.Lock()
+			mms[i] = append(mms[i], mm...)
+			mu.Unlock()
+		}
+	})
+	// one mismatch per kind (the earliest run), sorted by kind
+	for i := range mms {
+		sort.Slice(mms[i], func(a, b int) bool {
+			if mms[i][a].kind != mms[i][b].kind {
+				return mms[i][a].kind < mms[i][b].kind
+			}
+			return mms[i][a].rep < mms[i][b].rep
+		})
+		var out []mismatch
+		for _, m := range mms[i] {
+			if len(out) == 0 || out[len(out)-1].kind != m.kind {
+				out = append(out, m)
+			}
+		}
+		mms[i] = out
+	}
+	c.Par(n, func(i int, w *rt.W) {
+		cs := caseOf(i)
+		w.Begin(cs)
+		mm := mms[i]
 		if i < len(ins) {
 			in := ins[i]
-			cs := Case{Leg: "rep", Seed: c.Seed, NEdit: nEdit(c), Input: in.Name, Reps: reps}
-			w.Begin(cs)
-			first, mm := repeat(reps, func(int) map[string][]byte { return Outputs(in) })
-			for _, k := range kinds(first) {
-				b := first[k]
+			for _, k := range kinds(first[i]) {
+				b := first[i][k]
 				nontrivial := len(b) > 0 && !strings.HasPrefix(k, "error.")
 				c.Eval(rt.Digest(in.Name, k, sum(b)), nontrivial)
 				c.Count("rep:kind:"+k, 1)
 				if strings.HasPrefix(k, "error.") {
-					c.Count("rep:atlas-error:"+string(in.Dialect)+":"+k, 1)
+					c.Count("rep:atlas-refusal:"+string(in.Dialect)+":"+k, 1)
 				}
 			}
 			c.Count("rep:runs", int64(reps))
 			c.Count("rep:input:"+string(in.Dialect)+":"+inputClass(in.Name), 1)
-			c.Count("rep:planned-statements", int64(strings.Count(string(first["plan.cmds"]), ";\n")+1))
-			reportRep(c, "rep", in.Name, string(in.Dialect), cs, first, mm)
-			if len(mm) == 0 && c.WantSample() && strings.Contains(in.Name, "edit") {
+			if p, ok := first[i]["plan.cmds"]; ok {
+				c.Count("rep:planned-statements", int64(strings.Count(string(p), ";\n")+1))
+			}
+			reportRep(c, "rep", in.Name, string(in.Dialect), cs, first[i], mm)
+			if len(mm) == 0 && strings.Contains(in.Name, "edit") && sampleSlot(&repSamples, 1) {
 				c.Sample(map[string]any{"leg": "rep", "input": in.Name, "edits": in.Edits, "runs": reps, "verdict": "held",
-					"digests": digestsOf(first), "plan_head": clip(first["plan.cmds"], 400)})
+					"digests": digestsOf(first[i]), "plan_head": clip(first[i]["plan.cmds"], 400)})
 			}
 			return
 		}
 		d := dirs[i-len(ins)]
-		cs := Case{Leg: "dir", Seed: c.Seed, Input: d.Name, Reps: reps}
-		w.Begin(cs)
 		scratch := filepath.Join(c.Scratch, fmt.Sprintf("dirs-w%d", w.ID))
-		first, mm := repeat(reps, func(int) map[string][]byte { return DirOutputs(d, nil, scratch) })
-		for _, k := range kinds(first) {
-			c.Eval(rt.Digest(d.Name, k, sum(first[k])), len(first[k]) > 0 && !strings.HasPrefix(k, "error."))
+		for _, k := range kinds(first[i]) {
+			c.Eval(rt.Digest(d.Name, k, sum(first[i][k])), len(first[i][k]) > 0 && !strings.HasPrefix(k, "error."))
 			c.Count("dir:kind:"+k, 1)
 		}
 		c.Count("dir:runs", int64(reps))
 		c.Count("dir:files", int64(len(d.Files)))
-		reportRep(c, "dir", d.Name, "dir", cs, first, mm)
+		reportRep(c, "dir", d.Name, "dir", cs, first[i], mm)
 		// every directory must validate against the sum file written from its own checksum
 		for _, k := range []string{"mem.validate", "named.validate", "local.validate"} {
-			if v, ok := first[k]; ok && string(v) != "ok" {
+			if v, ok := first[i][k]; ok && string(v) != "ok" {
 				c.Violation("dir|validate-own-sum", fmt.Sprintf("%s: %s is %q right after WriteSumFile(dir.Checksum())", d.Name, k, v), cs, nil)
 			}
 		}
@@ -334,20 +396,26 @@ func runRep(c *rt.Ctx, ins []*Input, dirs []*DirInput, reps int) {
 			order := r.Perm(len(d.Files))
 			got := DirOutputs(d, order, scratch)
 			c.Count("dir:write-orders", 1)
-			for _, k := range kinds(first) {
-				if string(canon(k, first[k])) != string(canon(k, got[k])) {
+			for _, k := range kinds(first[i]) {
+				if string(canon(k, first[i][k])) != string(canon(k, got[k])) {
 					pc := cs
 					pc.Leg, pc.DirPerm, pc.Kind = "dirperm", order, k
-					c.Violation("dirperm|"+k, fmt.Sprintf("%s: %q depends on the order in which the files were written: %s", d.Name, k, firstDiff(first[k], got[k])), pc,
-						map[string]any{"listed_order": clip(first[k], 2000), "permuted_order": clip(got[k], 2000)})
+					c.Violation("dirperm|"+k, fmt.Sprintf("%s: %q depends on the order in which the files were written: %s", d.Name, k, firstDiff(first[i][k], got[k])), pc,
+						map[string]any{"listed_order": clip(first[i][k], 2000), "permuted_order": clip(got[k], 2000)})
 				}
 			}
 		}
-		if c.WantSample() && len(d.Files) >= 8 && len(mm) == 0 {
-			c.Sample(map[string]any{"leg": "dir", "input": d.Name, "files": len(d.Files), "runs": reps, "verdict": "held", "digests": digestsOf(first)})
+		if len(d.Files) >= 8 && len(mm) == 0 && sampleSlot(&dirSamples, 1) {
+			c.Sample(map[string]any{"leg": "dir", "input": d.Name, "files": len(d.Files), "runs": reps, "verdict": "held", "digests": digestsOf(first[i])})
 		}
 	})
 }
+
+// at most one sample of the repetition leg and one of the directory leg, so that the (four) sample
+// slots of the evidence also show permutation cases.
+var repSamples, dirSamples, permSamples atomic.Int32
+
+func sampleSlot(n *atomic.Int32, max int32) bool { return n.Add(1) <= max }
 
 func digestsOf(m map[string][]byte) map[string]string {
 	out := map[string]string{}
@@ -363,8 +431,12 @@ func run(c *rt.Ctx) {
 	reps := 20
 	ins := allInputs(c.Seed, nEdit(c))
 	dirs := DirInputs(c.Seed, nDirs(c))
+	t0 := time.Now()
 	runRep(c, ins, dirs, reps)
+	t1 := time.Now()
 	pstats := runPerm(c)
+	pstats["wall_s"] = time.Since(t1).Seconds()
+	pstats["rep_leg_wall_s"] = t1.Sub(t0).Seconds()
 	c.Finish("(1) repetition: every seeded input (unions of the dmodel feature pool, 15–60 tables with seeded cross foreign keys incl. cycles, "+
 		"PostgreSQL enums, multi-schema realms; create / drop / 6–15 step edit walks; MySQL, PostgreSQL, SQLite) is diffed (DefaultDiff), planned "+
 		"(DefaultPlan), formatted (DefaultFormatter with a fixed version + the five sqltool formatters, `now` projected away), marshalled "+
